@@ -28,8 +28,8 @@ GStep ==
        \/ \E s \in Scopes, o \in Objs : OnObject(s, o) /\ Rec([op |-> "object", s |-> s, o |-> o])
        \/ \E s \in Scopes, x \in RetGetters : /\ ms[s].live /\ ms[s].cur.phase \in {"open", "ignored"} /\ ReturnValue(s, x.g, x.od, x.d, "support")
                                                 /\ Rec([op |-> "ret", s |-> s, g |-> x.g, od |-> x.od, d |-> x.d])
-       \/ \E s \in Scopes : StrictOrder(s) /\ ~Touched(s)[s].strict /\ NExp(s) = 0 /\ NCalls = 0 /\ Rec([op |-> "strict", s |-> s])
-       \/ IgnoreOtherCalls /\ ~ms[Global].ignoreOthers /\ NCalls = 0 /\ Rec([op |-> "ignoreothers"])
+       \/ \E s \in Scopes : Flags /\ StrictOrder(s) /\ ~Touched(s)[s].strict /\ NExp(s) = 0 /\ NCalls = 0 /\ Rec([op |-> "strict", s |-> s])
+       \/ Flags /\ IgnoreOtherCalls /\ ~ms[Global].ignoreOthers /\ NCalls = 0 /\ Rec([op |-> "ignoreothers"])
        \/ Toggles /\ Disable /\ ms[Global].enabled /\ Rec([op |-> "disable"])
        \/ Toggles /\ Enable /\ ~ms[Global].enabled /\ Rec([op |-> "enable"])
        \/ AnyOpen /\ Left /\ Rec([op |-> "left"])
